@@ -554,7 +554,41 @@ async def exec_case(env, si, st, channel, case, obs=None):
         rem = d["deadline"]
         if (want_rem is None) != (rem is None) or (rem is not None and not (want_rem - 2.5 <= rem <= want_rem + 0.5)):
             fails.append(("kw-precedence", "deadline: server saw %r s remaining, expected %r" % (rem, want_rem)))
+    if mode == "normal" and not fails and not m.cs and not m.ss and not kw:
+        fails += await resend_after_change(stub, m, st, reqs, resps, call_kw)
     return fails, info
+
+
+def grow_in_place(msg):
+    """change a message WITHOUT assigning to it: append to its first list field / set inside its first sub-message"""
+    import dataclasses
+    for fld in dataclasses.fields(msg):
+        try:
+            v = getattr(msg, fld.name)
+        except AttributeError:
+            continue
+        if isinstance(v, list) and (not v or isinstance(v[0], int)):
+            v.append(77)
+            return True
+    return False
+
+
+async def resend_after_change(stub, m, st, reqs, resps, call_kw):
+    """the SAME request object, changed in place and sent again, is received as it is NOW; likewise the response
+    object the handler returns again (what goes over the wire is the message's current value, not a remembered encoding)"""
+    fails = []
+    if not (grow_in_place(reqs[0]) | grow_in_place(resps[0])):
+        return fails
+    del st.log[:], st.dispatch[:], st.requests[:], st.helpers[:]
+    try:
+        got = await asyncio.wait_for(getattr(stub, m.py)(reqs[0], **call_kw), CALL_TIMEOUT)
+    except Exception as e:  # noqa
+        return [("resend-raised", "%s: %s" % (type(e).__name__, str(e)[:200]))]
+    if not st.log or st.log[0][2] != reqs:
+        fails.append(("request-mismatch", "re-sent after an in-place change: sent %r, handler received %r" % (reqs, st.log[0][2] if st.log else None)))
+    if got != resps[0]:
+        fails.append(("response-mismatch", "handler answered again with the response object changed in place: %r, caller received %r" % (resps[0], got)))
+    return fails
 
 
 # ------------------------------------------------------------------ planning the cases of one service
